@@ -285,7 +285,7 @@ theorem AWrite.pollFlush_ok (a : AWrite) (t : Nat) : WOK a (a.pollFlush t).1 := 
     | some r => cases r <;> exact ((h0.trans h1).trans h2).trans (WOK.of_w_eq rfl)
 
 theorem AWrite.pollClose_ok (a : AWrite) (t : Nat) : WOK a (a.pollClose t).1 := by
-  unfold AWrite.pollClose
+  unfold AWrite.pollClose AWrite.closeBody
   simp only
   have h0 : WOK a { a with slots := a.slots.set .c (some t) } := WOK.of_w_eq rfl
   split
@@ -625,7 +625,7 @@ theorem AWrite.pollFlush_clean {a : AWrite} (t : Nat) (hc : Clean a) (hi : WInv 
 /-- `poll_close`: keeps `Clean`; `Ready(Ok(()))` means the buffer is empty and everything was sent -/
 theorem AWrite.pollClose_clean {a : AWrite} (t : Nat) (hc : Clean a) (hi : WInv a.w) :
     Clean (a.pollClose t).1 ∧ ((a.pollClose t).2 = .unit → Flushed (a.pollClose t).1.w) := by
-  unfold AWrite.pollClose
+  unfold AWrite.pollClose AWrite.closeBody
   simp only
   have hc0 : Clean { a with slots := a.slots.set .c (some t) } := hc
   split
@@ -1355,7 +1355,7 @@ theorem pollFlush_obs {P0} {a : AWrite} (t : Nat) (h : Settled P0 (wobs a.w)) :
 
 theorem pollClose_obs {P0} {a : AWrite} (t : Nat) (h : Settled P0 (wobs a.w)) :
     WSpec P0 .c { a with slots := a.slots.set .c (some t) } (a.pollClose t) := by
-  unfold AWrite.pollClose
+  unfold AWrite.pollClose AWrite.closeBody
   simp only
   have h0 : Settled P0 (wobs ({ a with slots := a.slots.set .c (some t) } : AWrite).w) := h
   split
@@ -1553,5 +1553,336 @@ theorem AWrite.writeLoop_stable (src : Bytes) :
       | oom => rfl
       | wz => rfl
       | other => rfl
+
+
+/-! ### write half: no panic, and the two `debug_assert!`s hold, while the caller respects `Guard` -/
+
+structure WSafe (a : AWrite) : Prop where
+  inv : WInv a.w
+  clean : Clean a
+  fut : FutInv a.w a.wfut
+  /-- a shutdown is only ever in flight with no flush future and nothing buffered -/
+  shut : a.sfut = true → a.wfut = .idle ∧ Flushed a.w
+  excl : a.closed = true → a.sfut = false
+
+theorem WSafe.new (base max : Nat) (ws : List WItem) : WSafe (AWrite.new base max ws) where
+  inv := WInv.new base max ws
+  clean := by intro t ht; cases ht
+  fut := by simp [AWrite.new, FutInv, WSide.new, Buf.new]
+  shut := by simp [AWrite.new]
+  excl := by simp [AWrite.new]
+
+theorem pollFlushImpl_safe {a : AWrite} (h : WSafe a) (hs : a.sfut = false) :
+    a.pollFlushImpl.2 ≠ some .panic ∧ WSafe a.pollFlushImpl.1 ∧ a.pollFlushImpl.1.sfut = false ∧
+    (∀ m, a.pollFlushImpl.2 = some (.ok m) → a.pollFlushImpl.1.wfut = .idle ∧ Flushed a.pollFlushImpl.1.w) := by
+  have h1 := (AWrite.pollFlushImpl_ok a).inv h.inv
+  have h2 := AWrite.pollFlushImpl_clean h.clean h.inv
+  have h3 := WSide.flushResume_nopanic h.inv a.slots.tasks a.wfut h.fut
+  unfold AWrite.pollFlushImpl at *
+  rcases hq : a.w.flushResume a.slots.tasks a.wfut with ⟨w', fut', res⟩
+  rw [hq] at h1 h2 h3
+  simp only at h1 h2 h3 ⊢
+  refine ⟨h3.1, ⟨h1, h2.1, h3.2, by simp [hs], by simp [hs]⟩, hs, ?_⟩
+  intro m hm
+  exact ⟨h2.2.2 (by simp [hm]), h2.2.1 m hm⟩
+
+theorem pollCloseImpl_safe {a : AWrite} (h : WSafe a) (hpre : a.sfut = true ∨ (a.wfut = .idle ∧ Flushed a.w)) :
+    a.pollCloseImpl.2 ≠ some .panic ∧ WSafe a.pollCloseImpl.1 ∧ a.pollCloseImpl.1.wfut = a.wfut ∧
+    (a.pollCloseImpl.2 ≠ none → a.pollCloseImpl.1.sfut = false) := by
+  have hpre' : a.wfut = .idle ∧ Flushed a.w := by
+    rcases hpre with hs | hp
+    · exact h.shut hs
+    · exact hp
+  have hc := AWrite.pollCloseImpl_clean h.clean
+  have hi := (AWrite.pollCloseImpl_ok a).inv h.inv
+  unfold AWrite.pollCloseImpl at *
+  by_cases hcl : a.closed = true
+  · simp only [hcl, if_true] at hc hi ⊢
+    exact ⟨by simp, h, trivial, fun _ => h.excl hcl⟩
+  · have hcl' : a.closed = false := by simpa using hcl
+    simp only [hcl', Bool.false_eq_true, if_false] at hc hi ⊢
+    have h2 := WSide.shutdownPoll_same a.w a.slots.tasks
+    have h3 := WSide.shutdownPoll_nopanic a.w a.slots.tasks
+    rcases hq : a.w.shutdownPoll a.slots.tasks with ⟨w', res⟩
+    rw [hq] at h2 h3 hc hi
+    simp only at h2 h3
+    have hfut : FutInv w' a.wfut := by
+      rw [hpre'.1]
+      have := h.fut
+      rw [hpre'.1] at this
+      simpa [FutInv, h2.1] using this
+    have hfl : Flushed w' := by
+      have := hpre'.2; unfold Flushed at *; rw [h2.1, h2.2.1, h2.2.2.1]; exact this
+    cases res with
+    | none =>
+      exact ⟨by simp, ⟨hi, hc.1, hfut, fun _ => ⟨hpre'.1, hfl⟩, by simp [hcl']⟩, rfl, by simp⟩
+    | some r =>
+      cases r with
+      | ok u => exact ⟨by simp, ⟨hi, hc.1, hfut, by simp, by simp⟩, rfl, fun _ => rfl⟩
+      | err k => exact ⟨by simp, ⟨hi, hc.1, hfut, by simp, by simp⟩, rfl, fun _ => rfl⟩
+      | panic => exact absurd rfl h3
+
+theorem shutdownGate_safe {a : AWrite} (h : WSafe a) :
+    a.shutdownGate.2 ≠ some .panic ∧ WSafe a.shutdownGate.1 ∧ a.shutdownGate.1.wfut = a.wfut ∧
+    (a.shutdownGate.2 = none → a.shutdownGate.1.sfut = false) := by
+  unfold AWrite.shutdownGate
+  by_cases hs : a.sfut = true
+  · simp only [hs, if_true]
+    have hidle := (h.shut hs).1
+    simp only [hidle, ne_eq, not_true_eq_false, if_false]
+    have hp := pollCloseImpl_safe h (Or.inl hs)
+    rcases hq : a.pollCloseImpl with ⟨a', o⟩
+    rw [hq] at hp
+    simp only at hp
+    cases o with
+    | none => exact ⟨by simp, hp.2.1, by rw [hp.2.2.1, hidle], by simp⟩
+    | some r =>
+      cases r with
+      | ok u => exact ⟨by simp, hp.2.1, by rw [hp.2.2.1, hidle], fun _ => hp.2.2.2 (by simp)⟩
+      | err k => exact ⟨by simp, hp.2.1, by rw [hp.2.2.1, hidle], by simp⟩
+      | panic => exact absurd rfl hp.1
+  · have hs' : a.sfut = false := by simpa using hs
+    simp only [hs', Bool.false_eq_true, if_false]
+    exact ⟨by simp, h, trivial, fun _ => trivial⟩
+
+
+theorem WSafe.of_slots {a : AWrite} (h : WSafe a) (sl : Slots) : WSafe { a with slots := sl } :=
+  ⟨h.inv, h.clean, h.fut, h.shut, h.excl⟩
+
+theorem writeLoopA_safe (src : Bytes) : ∀ (fuel : Nat) {a : AWrite}, WSafe a → a.sfut = false →
+    (∀ t, a.wfut ≠ .flushing t) → (a.writeLoop src fuel).2 ≠ .panic ∧ WSafe (a.writeLoop src fuel).1
+  | 0, a, h, _, _ => by simpa [AWrite.writeLoop] using h
+  | fuel + 1, a, h, hs, hn => by
+    unfold AWrite.writeLoop
+    have h1 := h.inv.write src
+    have h2 := WSide.write_nopanic h.inv src
+    have h3 := WSide.write_futinv h.inv src a.wfut h.fut
+    rcases hq : a.w.write src with ⟨w', res⟩
+    rw [hq] at h1 h2 h3
+    simp only at h1 h2 h3
+    have ha : WSafe { a with w := w' } :=
+      ⟨h1, Clean.of_not_flushing hn, h3, by simp [hs], h.excl⟩
+    cases res with
+    | ok n => exact ⟨by simp, ha.of_slots _⟩
+    | panic => exact absurd rfl h2.1
+    | err k =>
+      cases k with
+      | wb =>
+        simp only
+        have hp := pollFlushImpl_safe ha hs
+        rcases hq2 : ({ a with w := w' } : AWrite).pollFlushImpl with ⟨a', o⟩
+        rw [hq2] at hp
+        simp only at hp
+        cases o with
+        | none => exact ⟨by simp, hp.2.1⟩
+        | some r =>
+          cases r with
+          | ok m =>
+            refine writeLoopA_safe src fuel hp.2.1 hp.2.2.1 ?_
+            intro t ht
+            rw [(hp.2.2.2 m rfl).1] at ht; cases ht
+          | err _ => exact ⟨by simp, hp.2.1⟩
+          | panic => exact absurd rfl hp.1
+      | oom => exact ⟨by simp, ha.of_slots _⟩
+      | wz => exact ⟨by simp, ha.of_slots _⟩
+      | other => exact ⟨by simp, ha.of_slots _⟩
+
+theorem pollWrite_safe {a : AWrite} (t : Nat) (src : Bytes) (h : WSafe a) (hn : ∀ t, a.wfut ≠ .flushing t) :
+    (a.pollWrite t src).2 ≠ .panic ∧ WSafe (a.pollWrite t src).1 := by
+  unfold AWrite.pollWrite
+  simp only
+  have hg := shutdownGate_safe (h.of_slots (a.slots.set .a (some t)))
+  rcases hq : ({ a with slots := a.slots.set .a (some t) } : AWrite).shutdownGate with ⟨a', o⟩
+  rw [hq] at hg
+  simp only at hg
+  cases o with
+  | some o => exact ⟨fun ho => hg.1 (congrArg some ho), hg.2.1⟩
+  | none =>
+    refine writeLoopA_safe src loopFuel hg.2.1 (hg.2.2.2 rfl) ?_
+    intro t' ht'
+    rw [hg.2.2.1] at ht'
+    exact hn t' ht'
+
+theorem pollFlush_safe {a : AWrite} (t : Nat) (h : WSafe a) :
+    (a.pollFlush t).2 ≠ .panic ∧ WSafe (a.pollFlush t).1 := by
+  unfold AWrite.pollFlush
+  simp only
+  have hg := shutdownGate_safe (h.of_slots (a.slots.set .b (some t)))
+  rcases hq : ({ a with slots := a.slots.set .b (some t) } : AWrite).shutdownGate with ⟨a', o⟩
+  rw [hq] at hg
+  simp only at hg
+  cases o with
+  | some o => exact ⟨fun ho => hg.1 (congrArg some ho), hg.2.1⟩
+  | none =>
+    simp only
+    have hp := pollFlushImpl_safe hg.2.1 (hg.2.2.2 rfl)
+    rcases hq2 : a'.pollFlushImpl with ⟨a'', o2⟩
+    rw [hq2] at hp
+    simp only at hp
+    cases o2 with
+    | none => exact ⟨by simp, hp.2.1⟩
+    | some r =>
+      cases r with
+      | ok _ => exact ⟨by simp, hp.2.1.of_slots _⟩
+      | err _ => exact ⟨by simp, hp.2.1.of_slots _⟩
+      | panic => exact absurd rfl hp.1
+
+theorem closeTail_safe {a : AWrite} (h : WSafe a) (hpre : a.sfut = true ∨ (a.wfut = .idle ∧ Flushed a.w)) :
+    a.closeTail.2 ≠ .panic ∧ WSafe a.closeTail.1 := by
+  unfold AWrite.closeTail
+  have hp := pollCloseImpl_safe h hpre
+  rcases hq : a.pollCloseImpl with ⟨a', o⟩
+  rw [hq] at hp
+  simp only at hp
+  cases o with
+  | none => exact ⟨by simp, hp.2.1⟩
+  | some r =>
+    cases r with
+    | ok _ => exact ⟨by simp, hp.2.1.of_slots _⟩
+    | err _ => exact ⟨by simp, hp.2.1.of_slots _⟩
+    | panic => exact absurd rfl hp.1
+
+theorem closeBody_safe {a : AWrite} (h : WSafe a) : a.closeBody.2 ≠ .panic ∧ WSafe a.closeBody.1 := by
+  unfold AWrite.closeBody
+  simp only
+  -- the flush branch, entered with no shutdown in flight
+  have hflush : a.sfut = false →
+      (match a.pollFlushImpl with
+        | (a', none) => (a', Out.pending)
+        | (a', some (.ok _)) => a'.closeTail
+        | (a', some (.err k)) => (a', .err k)
+        | (a', some .panic) => (a', .panic)).2 ≠ .panic ∧
+      WSafe (match a.pollFlushImpl with
+        | (a', none) => (a', Out.pending)
+        | (a', some (.ok _)) => a'.closeTail
+        | (a', some (.err k)) => (a', .err k)
+        | (a', some .panic) => (a', .panic)).1 := by
+    intro hs'
+    have hp := pollFlushImpl_safe h hs'
+    rcases hq2 : a.pollFlushImpl with ⟨a'', o2⟩
+    rw [hq2] at hp
+    simp only at hp
+    cases o2 with
+    | none => exact ⟨by simp, hp.2.1⟩
+    | some r =>
+      cases r with
+      | ok m => exact closeTail_safe hp.2.1 (Or.inr (hp.2.2.2 m rfl))
+      | err _ => exact ⟨by simp, hp.2.1⟩
+      | panic => exact absurd rfl hp.1
+  cases hwf : a.wfut with
+  | idle =>
+    have hl : a.w.buf.lent = false := by have := h.fut; rw [hwf] at this; exact this
+    simp only [ne_eq, not_true_eq_false, if_false, WSide.hasPending, hl, Bool.false_eq_true]
+    by_cases hd : a.w.buf.data.length = 0
+    · simp only [hd, ne_eq, not_true_eq_false, decide_false]
+      have hfl : Flushed a.w := by
+        have hdd : a.w.buf.data = [] := List.length_eq_zero_iff.mp hd
+        have hp : a.w.buf.pos = 0 := by have := h.inv.pos_le; rw [hd] at this; omega
+        refine ⟨?_, hdd, hp⟩
+        have := h.inv.fifo
+        simp only [Buf.avail, hdd, List.drop_nil, List.append_nil] at this
+        exact this.symm
+      exact closeTail_safe h (Or.inr ⟨hwf, hfl⟩)
+    · simp only [hd, ne_eq, not_false_eq_true, decide_true]
+      by_cases hs : a.sfut = true
+      · have := (h.shut hs).2.2.1
+        rw [this] at hd; simp at hd
+      · have hs' : a.sfut = false := by simpa using hs
+        simp only [hs', Bool.false_eq_true, if_false]
+        exact hflush hs'
+  | writing t' =>
+    have hs' : a.sfut = false := by
+      cases hs : a.sfut
+      · rfl
+      · have := (h.shut hs).1; rw [hwf] at this; cases this
+    simp only [ne_eq, reduceCtorEq, not_false_eq_true, if_true, hs', Bool.false_eq_true, if_false]
+    exact hflush hs'
+  | flushing t' =>
+    have hs' : a.sfut = false := by
+      cases hs : a.sfut
+      · rfl
+      · have := (h.shut hs).1; rw [hwf] at this; cases this
+    simp only [ne_eq, reduceCtorEq, not_false_eq_true, if_true, hs', Bool.false_eq_true, if_false]
+    exact hflush hs'
+
+theorem pollClose_safe {a : AWrite} (t : Nat) (h : WSafe a) :
+    (a.pollClose t).2 ≠ .panic ∧ WSafe (a.pollClose t).1 := by
+  unfold AWrite.pollClose
+  exact closeBody_safe (h.of_slots _)
+
+theorem WSafe.clearObs {a : AWrite} (h : WSafe a) : WSafe { a with w := a.w.clearObs } where
+  inv := h.inv.clearObs
+  clean := h.clean.clearObs
+  fut := by
+    have := h.fut
+    cases hw : a.wfut <;> simp_all [FutInv, WSide.clearObs]
+  shut := by
+    intro hs
+    have := h.shut hs
+    exact ⟨this.1, by have := this.2; unfold Flushed at *; simpa [WSide.clearObs] using this⟩
+  excl := h.excl
+
+theorem WSafe.of_call {a : AWrite} {e : Entry} {t : Nat} {g : AWrite → AWrite × Out}
+    (h : WSafe (g { a with w := a.w.clearObs }).1) : WSafe (a.call e t g).1 := by
+  unfold AWrite.call
+  simp only
+  exact ⟨h.inv, h.clean, h.fut, h.shut, h.excl⟩
+
+/-- is this the output `panic` of a write-half entry point -/
+def writePanic : Op → Out → Prop
+  | .pw .., .panic => True
+  | .pfl .., .panic => True
+  | .pcl .., .panic => True
+  | _, _ => False
+
+theorem WSafe.step {s : State} (h : WSafe s.aw) (op : Op) (hg : Guard s op) :
+    ¬ writePanic op (step s op).2 ∧ WSafe (step s op).1.aw := by
+  have h0 := h.clearObs
+  cases op with
+  | pr t n => exact ⟨by simp [writePanic], h⟩
+  | pru t n => exact ⟨by simp [writePanic], h⟩
+  | pfb t => exact ⟨by simp [writePanic], h⟩
+  | co n => exact ⟨by simp [writePanic], h⟩
+  | pw t bs =>
+    have hn : ∀ t', ({ s.aw with w := s.aw.w.clearObs } : AWrite).wfut ≠ .flushing t' := by
+      intro t' ht'
+      simp only [Guard] at hg
+      simp only at ht'
+      rw [ht'] at hg
+      simp [isFlushing] at hg
+    have := pollWrite_safe t bs h0 hn
+    simp only [PollAdapter.step]
+    refine ⟨?_, WSafe.of_call this.2⟩
+    rw [(AWrite.call_w _ _ _ _).2]
+    intro hp
+    cases ho : ({ s.aw with w := s.aw.w.clearObs } : AWrite).pollWrite t bs |>.2 <;> simp_all [writePanic]
+  | pfl t =>
+    have := pollFlush_safe t h0
+    simp only [PollAdapter.step]
+    refine ⟨?_, WSafe.of_call this.2⟩
+    rw [(AWrite.call_w _ _ _ _).2]
+    intro hp
+    cases ho : ({ s.aw with w := s.aw.w.clearObs } : AWrite).pollFlush t |>.2 <;> simp_all [writePanic]
+  | pcl t =>
+    have := pollClose_safe t h0
+    simp only [PollAdapter.step]
+    refine ⟨?_, WSafe.of_call this.2⟩
+    rw [(AWrite.call_w _ _ _ _).2]
+    intro hp
+    cases ho : ({ s.aw with w := s.aw.w.clearObs } : AWrite).pollClose t |>.2 <;> simp_all [writePanic]
+
+/-- no output of a write-half entry point in the run is `panic` -/
+def NoWritePanic : List Op → List Out → Prop
+  | op :: ops, o :: os => ¬ writePanic op o ∧ NoWritePanic ops os
+  | _, _ => True
+
+theorem WSafe.run : ∀ (ops : List Op) {s : State}, WSafe s.aw → GuardedRun s ops →
+    NoWritePanic ops (run s ops).2 ∧ WSafe (run s ops).1.aw
+  | [], s, h, _ => by simpa [PollAdapter.run, NoWritePanic] using h
+  | op :: ops, s, h, hg => by
+    simp only [PollAdapter.run, NoWritePanic]
+    have h1 := h.step op hg.1
+    have h2 := WSafe.run ops h1.2 hg.2
+    exact ⟨⟨h1.1, h2.1⟩, h2.2⟩
 
 end Compio.PollAdapter
